@@ -78,7 +78,9 @@ Definition change_none (c : color) : color := c.
 Definition scale_none (c : color) : color :=
   let h := to_hsla c in CHsla (hsla_new (h_hue h) (h_sat h) (h_lum h) (h_alpha h) (h_format h)).
 
-(* impl Ord for Color / PartialEq: None where the code calls unwrap() on an undefined comparison *)
+(* impl Ord for Color / PartialEq.  hsl / hwb colours: derived order of the fields (exact f64 comparison,
+   then the hsla_format flag); an undefined comparison (NaN channel) counts as Less, i.e. not equal
+   (fix 1517171 "comparing hsl colors with NaN channels no longer panics") *)
 Definition fcmp_exact (a b : f64) : option comparison := fcmp a b.
 Definition hsla_pcmp (a b : hsla) : option comparison :=
   let step (x y : f64) (k : option comparison) :=
@@ -87,7 +89,7 @@ Definition hsla_pcmp (a b : hsla) : option comparison :=
     (Some (match h_format a, h_format b with
            | false, true => Lt | true, false => Gt | _, _ => Eq end))))).
 Definition color_eq (a b : color) : option bool :=
-  let of o := match o with Some Eq => Some true | Some _ => Some false | None => None end in
+  let of o := match o with Some Eq => Some true | Some _ => Some false | None => Some false end in
   match a, b with
   | CHsla x, CHsla y => of (hsla_pcmp x y)
   | CHsla x, CHwba y => of (hsla_pcmp x (hsla_of_hwba y))
